@@ -1,4 +1,5 @@
 import RdsProofs.Reach
+import RdsProofs.WordedProofs
 import RdsProofs.LinkProofs
 /-!
 # Property C09 — extended check: nothing seen only once ever becomes visible
@@ -9,6 +10,10 @@ abstract fields and the AF list is exactly the set of codes received at least tw
 the abstract field (`AFld.recv true`): the visible value changes to v exactly when the previous reception also carried v.
 -/
 -- THEOREM: RDS.C09
+-- THEOREM: RDS.C09_worded
+-- THEOREM: RDS.extFold_shown
+-- THEOREM: RDS.extFold_no_double
+-- THEOREM: RDS.extFold_double_at_end
 -- THEOREM: RDS.C09_two_consecutive
 -- THEOREM: RDS.C09_single_never_visible
 namespace RDS
